@@ -1,7 +1,8 @@
 (* C08 — State matrices stay well-formed under every operator.
    Only statements, each closed by [exact], followed by Print Assumptions. *)
 From Coq Require Import List ZArith.
-From EPG Require Import Scalar QI State Ops Views WfProof.
+From EPG Require Import Scalar QI State Ops Views WfProof Exchange WfExt.
+From EPG.Model Require Import Diffusion.
 Import ListNotations.
 
 (* the initial state of simulate() is well-formed *)
@@ -39,4 +40,48 @@ Proof.
   split.
   - repeat constructor; vm_compute; reflexivity.
   - apply (wf_init QIops QIlaws). vm_compute. reflexivity.
+Qed.
+
+(* ---------------------------------------------------------------- beyond the seven 1-D operators (Proofs/WfExt.v) *)
+
+(* every reachable state of every program that interleaves the 1-D operators with the diffusion operator D
+   (transverse factor arbitrary, longitudinal factor conjugate-even in the phase-state number: exp(-bL:D) is real
+   and bL is even) *)
+Theorem C08_wf_run_with_diffusion (S : ScalOps) (L : ScalLaws S) (es : list (eop S)) (s : sm S) :
+  Forall (wf_eop S) es -> wf S s -> wf S (erun es s).
+Proof. exact (wf_erun S L es s). Qed.
+Print Assumptions C08_wf_run_with_diffusion.
+
+(* ... and D does not change the equilibrium either *)
+Theorem C08_only_pd_changes_equilibrium_ext (S : ScalOps) (e : eop S) (s : sm S) :
+  wf S s -> (forall p r, e <> EOp (OPD p r)) -> forall k, gete S (eapply e s) k = gete S s k.
+Proof. exact (only_pd_changes_equilibrium_ext S e s). Qed.
+Print Assumptions C08_only_pd_changes_equilibrium_ext.
+
+(* exchange X on one fibre (n compartments x N = 2 ns + 1 phase states): with the stacked matrices
+   [MT, conj MT, ML] of exchange_operator and a real ML, the conjugate symmetry
+   F-(k) = conj F+(-k), Z(-k) = conj Z(k) of EVERY compartment is preserved *)
+Theorem C08_exchange_keeps_symmetry (S : ScalOps) (L : ScalLaws S) (n N : nat) (MT ML : matN S) (st eq : fibre S) :
+  (forall i j, kreal S (ML i j)) -> fib_sym S N st -> fib_sym S N eq ->
+  fib_sym S N (x_apply_fibre n MT (conjN MT) ML st eq).
+Proof. exact (x_fibre_symmetric S L n N MT ML st eq). Qed.
+Print Assumptions C08_exchange_keeps_symmetry.
+
+(* X creates nothing out of the equilibrium: a fibre at equilibrium is a fixed point, whatever the matrices *)
+Theorem C08_exchange_fixes_equilibrium (S : ScalOps) (L : ScalLaws S) (n : nat) (MT MC ML : matN S) (eq : fibre S) i k :
+  x_apply_fibre n MT MC ML eq eq i k = eq i k.
+Proof. exact (x_fibre_equilibrium S L n MT MC ML eq i k). Qed.
+Print Assumptions C08_exchange_fixes_equilibrium.
+
+(* non-vacuity: a program with D whose side conditions hold, on the executed instance *)
+Example C08_nonvacuous_ext :
+  let es : list (eop QIops) :=
+    [EOp (OShift 1 None);
+     @ED QIops (fun k => if (k <? 0)%Z then qi 1 2 1 3 else qi 1 5 (-1) 7)
+               (fun k => if (Z.abs k <? 2)%Z then qr 1 2 else qr 1 4);
+     EOp (@OPD QIops (qr 2 1) false); EOp (OShift (-2) None)] in
+  Forall (wf_eop QIops) es.
+Proof.
+  repeat constructor.
+  intros k. rewrite Z.abs_opp. destruct (Z.abs k <? 2)%Z; vm_compute; reflexivity.
 Qed.
